@@ -73,10 +73,11 @@ def run(ck, prog, ctx):
         base = b.short
         i = cnt.get(base, 0)
         cnt[base] = i + 1
-        ok = bool(iterated) and not bad_params
-        msg = ("%s appends unchecked an id %s" % (b.short, "taken from iterating a group" if ok else ("that is the caller-supplied `%s` (order/uniqueness not checked)" % bad_params[0] if bad_params else "that does not come from iterating a group")))
+        indexed = "ids" in field_names(val, IDS_OWNER) and not any(a[0] == "call" and a[1].endswith("::next") for a in val)
+        ok = (bool(iterated) or indexed) and not bad_params
+        msg = ("%s appends unchecked an id %s" % (b.short, ("taken from iterating a group" if iterated else "taken from a group's id vector by index") if ok else ("that is the caller-supplied `%s` (order/uniqueness not checked)" % bad_params[0] if bad_params else "that does not come from iterating a group")))
         ck.ob("TAINT", "append/%s/%d" % (base, i), ok, msg, where=b.where(t.line))
-    ck.floor("TAINT", "unchecked append sites", len(sinks), 8)
+    ck.floor("TAINT", "unchecked append sites", len(sinks), 2)
     # bulk appends: a whole slice / group appended to an id vector keeps it sorted and duplicate free only if the vector is
     # still empty, or if its last id is STRICTLY below the first appended id
     BULK = {"extend_from_slice", "extend", "append", "insert_many", "insert_from_slice", "extend_from_within"}
@@ -143,6 +144,11 @@ def run(ck, prog, ctx):
                     verdict, how = False, "guarded by last <= first: when the two ids are EQUAL the id is stored twice"
                 else:
                     verdict, how = False, "guarded by last %s first: the appended ids are not behind the receiver's" % {"gt": ">", "ge": ">="}[m]
+            src_at = pvn.of_operand(b, t.args[1]) if len(t.args) > 1 else frozenset()
+            is_tail = any(a[0] == "call" and a[3] == b.id and re.search(r"Index<std::ops::Range(From|To|Inclusive)?<usize>>", a[2] or "") for a in src_at)
+            if verdict is None and is_tail:
+                ck.undecided("TAINT", "bulk-append/%s" % b.short, "%s appends a sub-slice selected by a running index (tail of a merge?): whether it sorts behind the receiver is not decided" % b.short, where=b.where(t.line))
+                continue
             ck.ob("TAINT", "bulk-append/%s" % b.short, bool(verdict), "%s appends a whole id vector to a non-empty group, %s" % (b.short, how), where=b.where(t.line))
     # whole-vector constructions: `HpoGroup { ids: <something built from caller data> }` is only sorted and duplicate free
     # if the data was sorted and THEN deduplicated before it is stored
@@ -289,8 +295,11 @@ def run(ck, prog, ctx):
                 x = bor.blocks[bi].term
                 if x.k == "switch" and any(a[0] == "call" and a[4] == cbi and a[1].endswith("::cmp") for a in pvn.of_operand(bor, x.discr)):
                     osw = (bi, x)
+        iter_nexts = [t for _, t in bor.calls() if t.callee.method == "next" and t.callee.trait == "std::iter::Iterator"]
         if osw is None or not my_sinks:
             ck.undecided("MERGE", "shape", "two-pointer merge with an Ordering match not recognised in `|` (other algorithm?)", where=bor.where())
+        elif not iter_nexts:
+            ck.undecided("MERGE", "shape", "the merge in `|` does not advance iterators (index-based merge?): its arms are not classified by this rule", where=bor.where())
         else:
             cbi, ct = cmps[0]
             s0 = params_of(pv.of_operand(bor, ct.args[0]), bor.id)
